@@ -3,6 +3,7 @@ package props
 import (
 	"fmt"
 	"go/token"
+	"go/types"
 	"sort"
 	"strings"
 
@@ -133,21 +134,34 @@ func C18(c *core.Ctx) {
 				}
 			}
 			if isPhi {
-				var walk func(ph *ssa.Phi, seen map[*ssa.Phi]bool)
-				walk = func(ph *ssa.Phi, seen map[*ssa.Phi]bool) {
-					if seen[ph] {
+				// a value that reaches the installed cost through a chain of phis is judged
+				// at the OUTERMOST edge it travels (a default computed before the poison-
+				// reverse test and overridden inside it arrives through the edge that
+				// bypasses the override)
+				type phiVia struct {
+					ph   *ssa.Phi
+					pred *ssa.BasicBlock
+				}
+				seenVia := map[phiVia]bool{}
+				var walk func(ph *ssa.Phi, seen map[*ssa.Phi]bool, oPred, oJoin *ssa.BasicBlock)
+				walk = func(ph *ssa.Phi, seen map[*ssa.Phi]bool, oPred, oJoin *ssa.BasicBlock) {
+					if seenVia[phiVia{ph, oPred}] {
 						return
 					}
-					seen[ph] = true
+					seenVia[phiVia{ph, oPred}] = true
 					for i, e := range ph.Edges {
+						pred, join := ph.Block().Preds[i], ph.Block()
+						if oPred != nil {
+							pred, join = oPred, oJoin
+						}
 						if p2, ok := core.Strip(e).(*ssa.Phi); ok {
-							walk(p2, seen)
+							walk(p2, seen, pred, join)
 							continue
 						}
-						check(e, ph.Block().Preds[i], ph.Block())
+						check(e, pred, join)
 					}
 				}
-				walk(phi, map[*ssa.Phi]bool{})
+				walk(phi, map[*ssa.Phi]bool{}, nil, nil)
 			} else if rvs := core.ReturnedValues(costV); len(rvs) > 1 || (len(rvs) == 1 && rvs[0] != costV) {
 				// the cost comes out of a helper with several returns: each return is an
 				// alternative, decided in the helper's own control flow
@@ -421,6 +435,158 @@ func C18(c *core.Ctx) {
 		})
 	}
 	c.Floor("R18.5", "writes to RibEntry.costs", nW, 3)
+
+	// ---- R18.6 a fetch that could not be sent is retried: in advertDataFetch, on the edges on
+	// which MakeInterest or Express reported an error, a goroutine that fetches again is
+	// started before the function returns (no callback follows a failed send, and the
+	// neighbour's sequence number is already recorded, so nothing else would fetch again)
+	if af := c.Fn("R18.6", "dv/dv", "Router", "advertDataFetch"); af != nil {
+		startsRetry := func(in ssa.Instruction) bool {
+			if _, isGo := in.(*ssa.Go); isGo {
+				return true
+			}
+			cl, ok := in.(*ssa.Call)
+			if !ok {
+				return false
+			}
+			var fn *ssa.Function
+			if mc, isMC := core.Strip(cl.Call.Value).(*ssa.MakeClosure); isMC {
+				fn, _ = mc.Fn.(*ssa.Function)
+			} else if f2, isF := cl.Call.Value.(*ssa.Function); isF {
+				fn = f2
+			}
+			if fn == nil || fn.Blocks == nil || fn.Parent() != af {
+				return false
+			}
+			hasGo := false
+			core.Instrs(fn, func(x ssa.Instruction) {
+				if _, isGo := x.(*ssa.Go); isGo {
+					hasGo = true
+				}
+			})
+			return hasGo
+		}
+		nErr, bad := 0, ""
+		core.Instrs(af, func(in ssa.Instruction) {
+			cl, ok := in.(*ssa.Call)
+			if !ok || !cl.Call.IsInvoke() {
+				return
+			}
+			m := cl.Call.Method.Name()
+			if m != "MakeInterest" && m != "Express" {
+				return
+			}
+			var errv ssa.Value = cl
+			if m == "MakeInterest" {
+				errv = nil
+				for _, r := range core.Refs(cl) {
+					if ex, isE := r.(*ssa.Extract); isE && ex.Index == 1 {
+						errv = ex
+					}
+				}
+			}
+			if errv == nil {
+				return
+			}
+			failed := atomNonNil(m+" error", errv)
+			for _, f := range core.EdgeFacts(af, failed) {
+				if !f.Holds {
+					continue
+				}
+				nErr++
+				if !core.MustFollow(af, core.Point{Block: f.E.To, Idx: 0}, startsRetry, nil).OK {
+					bad = m + " at " + c.Pos(in)
+				}
+			}
+		})
+		c.Decide(nErr >= 2 && bad == "", "R18.6", "failed-advert-fetch-is-retried", p.Pos(af.Pos()), fmt.Sprintf("%d error edges, each followed by the start of a retry", nErr), "advertDataFetch returns on a failed "+bad+" without starting a retry: the neighbour's advertisement sequence number is already recorded, later Sync Interests with it are skipped, and the neighbour (with everything behind it) stays out of the routing table although its pings keep it alive")
+	}
+
+	// ---- R18.7 the neighbour table is shared between the Sync Interest handler, the dead-
+	// neighbour check and the fetch goroutines: every use of Router.neighbors in dv/dv is made
+	// with the router mutex held (a map read concurrent with a write aborts the process)
+	{
+		_, heldD := core.EntryLocks(p, core.ModPath+"/dv/dv")
+		nUse := 0
+		var unl []string
+		for _, fn := range p.FuncsIn(core.ModPath + "/dv/dv") {
+			if strings.HasSuffix(p.File(fn.Pos()), "_test.go") {
+				continue
+			}
+			root := core.RootOf(fn)
+			if root == nil {
+				root = fn
+			}
+			if n := core.BaseName(root); n == "NewRouter" || n == "Start" || n == "Stop" {
+				continue // before the handlers are attached / after they are detached
+			}
+			core.Instrs(fn, func(in ssa.Instruction) {
+				ci, ok := in.(ssa.CallInstruction)
+				if !ok {
+					return
+				}
+				id, ok := core.Callee(ci.Common())
+				if !ok || id.Recv != "NeighborTable" {
+					return
+				}
+				nUse++
+				if !heldD[fn][in]["W:Router.mutex"] && !heldD[fn][in]["R:Router.mutex"] {
+					unl = append(unl, core.FuncName(fn)+"."+id.Name+" at "+c.Pos(in))
+				}
+			})
+		}
+		c.Decide(len(unl) == 0, "R18.7", "neighbour-table-under-router-mutex", "-", fmt.Sprintf("%d uses of the neighbour table, all with the router mutex held", nUse), "the neighbour table is used without the router mutex ("+strings.Join(unl, "; ")+") while the Sync Interest handler and the dead-neighbour check write it under the mutex: with neighbours coming up close together the runtime aborts with 'concurrent map read and map write'")
+		c.Floor("R18.7", "uses of the neighbour table in dv/dv", nUse, 4)
+	}
+
+	// ---- R18.8 an advertised cost is compared with infinity BEFORE the link cost is added:
+	// costs are 64-bit numbers on the wire, and 2^64-1 + 1 wraps around to 0 — the
+	// destination would be installed, and re-advertised, at cost 0
+	if ru := c.Fn("R18.8", "dv/dv", "Router", "ribUpdate"); ru != nil {
+		inf, _ := lookupConst(p, "dv/config", "CostInfinity")
+		nAdd, bad := 0, ""
+		core.InstrsDeep(ru, func(in ssa.Instruction) {
+			b, ok := in.(*ssa.BinOp)
+			if !ok || b.Op != token.ADD {
+				return
+			}
+			fld := ""
+			for _, f := range []string{"Cost", "OtherCost"} {
+				if _, okF := core.FieldOf(core.StripConv(b.X), f); okF {
+					fld = f
+				}
+			}
+			if fld == "" {
+				return
+			}
+			if bt, okB := b.Type().Underlying().(*types.Basic); !okB || bt.Kind() != types.Uint64 {
+				return
+			}
+			nAdd++
+			finite := &core.Atom{Name: "advertised " + fld + " < infinity", Match: func(cond ssa.Value) (int, int) {
+				op, x, y, okC := core.Cmp(cond)
+				if !okC || !core.Same(core.StripConv(x), core.StripConv(b.X)) {
+					return 0, 0
+				}
+				k, isC := core.ConstInt(y)
+				if !isC || k > inf {
+					return 0, 0
+				}
+				switch op {
+				case token.LSS:
+					return 1, -1
+				case token.GEQ:
+					return -1, 1
+				}
+				return 0, 0
+			}}
+			g := core.GateDeep(ru, []ssa.Instruction{in}, pos(finite))
+			if !(g.OK && g.PassEdges > 0) {
+				bad = "entry." + fld + " at " + c.Pos(in)
+			}
+		})
+		c.Decide(nAdd > 0 && bad == "", "R18.8", "cost-bounded-before-addition", p.Pos(ru.Pos()), fmt.Sprintf("%d additions to an advertised cost, each behind 'advertised cost < infinity'", nAdd), "ribUpdate adds the link cost to "+bad+" before that cost was compared with infinity: the wire-valid cost 2^64-1 wraps around to 0, the destination is installed as a cost-0 route and re-advertised with cost 0")
+	}
 
 }
 
